@@ -61,6 +61,21 @@ PROPS = {
         assumptions=[A['A3'], A['A4'], "A9 the isogeny is a homomorphism (only needed to equate with the RFC's add-then-map order; the code maps then adds)",
                      "trait contracts of OSSWUMap / IsogenyMap / ClearH / SubgroupCheck are assumed in unit h2c; ClearH's is proved in unit cofactor, add_assign's in unit curve", A['TOOLS']],
     ),
+    'C05': dict(
+        units_quick=['encode', 'codec'], units_thorough=['encode', 'codec', 'recover', 'order', 'consts'], timeout=600,
+        claim="the four encoders (real bodies of EncodedPoint::from_affine and empty for G1/G2, compressed/uncompressed) return exactly the byte strings enc_* of "
+              "specs/encode.vrs, written from the property statement: fixed lengths 96/48/192/96 (array types), big-endian 48-byte coordinates, c1 before c0, "
+              "infinity = flag 0x40 and all other bits zero, compression flag 0x80, sort flag 0x20 set iff y > -y (canonical integer order; Fq2 lexicographic with c1 first); "
+              "every index and unwrap() is proved safe. Proved lemmas over enc_* and the decoding functions dec_* that the real decoders are proved equal to (unit codec, C04): "
+              "dec(enc(P)) == Ok(P) for every affine point with reduced coordinates (identity -> canonical identity; compressed: P on the curve), and "
+              "dec(b) == Ok(P) ==> enc(P) == b for every byte string of the right length (the encoding is the only accepted preimage; hence enc is injective).",
+        not_covered=["CurveAffine::into_compressed / into_uncompressed (trait defaults: from_affine(*self)) and the AsRef/AsMut<[u8]> accessors are not under contract (driven by the refutation search)",
+                     "projective inputs reach the encoders through into_affine (C01 scope)",
+                     "get_point_from_x enters through the contract proved in unit recover (thorough tier), restated as ax_gpfx1/2 with a textual link check"],
+        assumptions=["D1w PrimeFieldRepr::write_be into a &mut [u8] cursor writes the 48 big-endian bytes at the front and advances (byteorder + io::Write for &mut [u8])",
+                     "Fq::into_repr returns the canonical integer (C08)", "Fq ordering is the canonical integer order (derive, C08); Fq2 ordering proved in unit order (C18)",
+                     "A-FIELD: Fq and Fq2 are fields (a square has only the roots y, -y)", "A-ODD: neither curve has a point with y = 0 (numerically re-checked each run: -b is not a cube)", A['TOOLS']],
+    ),
     'C06': dict(
         units_quick=['h2c'], units_thorough=['h2c', 'cofactor', 'curve'], timeout=600,
         claim="PARTIAL (composition only): hash_to_curve(msg,dst) = map2_to_curve(u[0],u[1]) with u = hash_to_field(msg,dst,2) and encode_to_curve = "
@@ -197,6 +212,10 @@ PROPS = {
 
 HOOK_COMMITS = []
 NOT_APPLICABLE = {
+    'C03': "bilinearity, non-degeneracy and agreement with the textbook optimal-ate pairing are statements about the divisor-theoretic Miller function; a contract on "
+           "miller_loop / prepare would have to carry that theory (no such library exists for Verus, and the solver cannot derive it), and the loop itself is outside the Verus "
+           "subset (same construct as C11: `for &mut (p, ref mut coeffs)` over Vec<(&G1Prepared, slice::Iter)>); CBMC cannot carry a single Fq12 multiplication. The parts of the "
+           "pairing that contracts do reach are claimed under C12 (final exponentiation == f^(3(q^12-1)/r)) and C09 (tower arithmetic)",
     'C11': "the property is about miller_loop's joint iteration over Vec<(&G1Prepared, slice::Iter<..>)> via `for &mut (p, ref mut coeffs)`; "
            "outside the Rust subset of Verus, and CBMC cannot carry an Fq12 multiplication, so no contract within reach decides it",
     'C20': "quantifies over thread schedules and call histories; Kani has no thread support and the Verus units contain no shared state to attach "
